@@ -176,6 +176,94 @@ func (r *run) c19(budget int, thorough bool) {
 			r.emit(op, "unknown")
 		}
 	}
+	// 2b. an unknown name stays unknown whatever was asked before and however often it is asked; a
+	// listed name keeps yielding its own type in between
+	for i := 0; i < 200 && len(keys) > 0; i++ {
+		known := keys[r.rnd.Intn(len(keys))]
+		unk := fmt.Sprintf("%d.%03d", r.rnd.Intn(300), r.rnd.Intn(1000))
+		if seen[unk] {
+			continue
+		}
+		var hist []string
+		bad := ""
+		step := func(k string, wantOK bool) {
+			d, ok := dpt.Produce(k)
+			hist = append(hist, k)
+			if ok != wantOK && bad == "" {
+				if ok {
+					bad = fmt.Sprintf("after the calls %v Produce(%q) yields a %s", hist[:len(hist)-1], k, typeName(d))
+				} else {
+					bad = fmt.Sprintf("after the calls %v Produce(%q) reports a listed name as unknown", hist[:len(hist)-1], k)
+				}
+			}
+			if ok && wantOK && bad == "" {
+				if want := "DPT_" + strings.Replace(k, ".", "", 1); typeName(d) != want && k != "14.1200" {
+					bad = fmt.Sprintf("after the calls %v Produce(%q) yields a %s", hist[:len(hist)-1], k, typeName(d))
+				}
+			}
+		}
+		for j := 0; j < 2+r.rnd.Intn(4); j++ {
+			switch r.rnd.Intn(3) {
+			case 0:
+				step(known, true)
+			default:
+				step(unk, false)
+			}
+		}
+		step(known, true)
+		step(unk, false)
+		step(unk, false)
+		r.classes["produce-history-with-unknown-names"]++
+		if bad != "" {
+			r.violation("produce-depends-on-history", "produce "+strings.Join(hist, " ; produce "), bad)
+		}
+	}
+	// 2c. the list handed out is the caller's own: whatever a caller does to it (sort, filter in place,
+	// overwrite) the registry lists the same names afterwards
+	{
+		before := append([]string(nil), dpt.ListSupportedTypes()...)
+		sort.Strings(before)
+		for round := 0; round < 4; round++ {
+			l := dpt.ListSupportedTypes()
+			switch round {
+			case 0:
+				sort.Sort(sort.Reverse(sort.StringSlice(l)))
+			case 1:
+				keep := l[:0]
+				for _, k := range l {
+					if strings.HasPrefix(k, "9.") {
+						keep = append(keep, k)
+					}
+				}
+			case 2:
+				for i := range l {
+					l[i] = "DPT " + l[i]
+				}
+			default:
+				for i := range l {
+					l[i] = ""
+				}
+			}
+			after := append([]string(nil), dpt.ListSupportedTypes()...)
+			sort.Strings(after)
+			r.classes["list-mutated-by-caller"]++
+			if strings.Join(after, ",") != strings.Join(before, ",") {
+				missing := 0
+				am := map[string]bool{}
+				for _, k := range after {
+					am[k] = true
+				}
+				for _, k := range before {
+					if !am[k] {
+						missing++
+					}
+				}
+				r.violation("list-shared-with-callers", "ListSupportedTypes, caller modifies the returned slice, ListSupportedTypes",
+					fmt.Sprintf("after a caller modified the slice it was given the registry lists %d names, %d of the original %d are gone", len(after), missing, len(before)))
+				break
+			}
+		}
+	}
 	// 3. histories: instances do not share state
 	nh := 300
 	if thorough {
